@@ -240,16 +240,21 @@ package ring
 //@   ensures result == s.count
 //@   pure
 //@
+//@ # abstract membership of the small-slice / map hybrid set
+//@ pred ssHas(s stringSet, x string) = !isnil(s.setMap) ? in(x, s.setMap) : (exists i int :: 0 <= i && i < len(s.setSlice) && s.setSlice[i] == x)
 //@ func stringSet.contains
 //@   property C01
 //@   ensures !isnil(s.setMap) ==> (result <==> in(str, s.setMap))
 //@   ensures isnil(s.setMap) ==> (result <==> (exists i int :: 0 <= i && i < len(s.setSlice) && s.setSlice[i] == str))
+//@   ensures abstract: result <==> ssHas(s, str)
 //@   pure
 //@
 //@ func stringSet.add
 //@   property C01
 //@   ensures s.count == old(s).count + 1
-//@   loop 0 invariant s.count == old(s).count + 1 && !isnil(s.setMap)
+//@   ensures  abstract: forall x string :: ssHas(s, x) <==> (ssHas(old(s), x) || x == str)
+//@   loop 0 invariant s.count == old(s).count + 1 && !isnil(s.setMap) && same(s.setSlice, old(s).setSlice) && same($coll, old(s).setSlice)
+//@   loop 0 invariant forall x string :: in(x, s.setMap) <==> (exists i int :: 0 <= i && i < $i && old(s).setSlice[i] == x)
 //@
 //@ func newStringSet
 //@   property C01
@@ -275,6 +280,11 @@ package ring
 //@ pred zonesRep(r Ring) = (forall t uint32 :: in(t, r.ringInstanceByToken) ==> in(r.ringInstanceByToken[t].InstanceID, r.ringDesc.Ingesters) && r.ringDesc.Ingesters[r.ringInstanceByToken[t].InstanceID].Zone == r.ringInstanceByToken[t].Zone) &&
 //@      (forall a, b int :: 0 <= a && a < b && b < len(r.ringZones) ==> r.ringZones[a] != r.ringZones[b])
 //@
+//@ # walk positions: the k-th position clockwise from start on a circle of n tokens (k < n: at most one wrap)
+//@ opaque pure func walkIdx(start int, k int, n int) int = start + k < n ? start + k : start + k - n
+//@ opaque pure func tokOwner(r Ring, i int) string = r.ringInstanceByToken[r.ringTokens[i]].InstanceID
+//@ macro pred walkPlain(r Ring, f func(string) (bool, bool)) = f == nil && !r.cfg.ZoneAwarenessEnabled
+//@
 //@ func Ring.findInstancesForKey
 //@   property C01 C05
 //@   requires ringRep(r) && len(r.ringTokens) > 0 && replicationFactor >= 1
@@ -288,6 +298,22 @@ package ring
 //@   loop 1 invariant accounting: instanceFilter == nil ==> len(instances) == distinctHosts.count && replicaSetSize == replicationFactor + extCnt(op, instances, len(instances))
 //@   # with zones: a zone's quota is charged exactly by the non-extending walked instances of that zone
 //@   loop 1 invariant zones: instanceFilter == nil && r.cfg.ZoneAwarenessEnabled && zonesRep(r) ==> (forall z int :: 0 <= z && z < len(r.ringZones) && r.ringZones[z] != "" ==> foundHostsPerZone[z] == zoneCnt(op, instances, len(instances), r.ringZones[z]))
+//@   # the walked set itself (no zones, no filter): the members of the set of distinct hosts are exactly the owners of the
+//@   # tokens at the first `iterations` positions clockwise from the first token strictly after the key, and the returned
+//@   # instances are exactly their ring entries (wpos / idAt / jOf are the position witnesses)
+//@   ghost var wpos total[string]int = havoc
+//@   ghost var idAt total[int]string = havoc
+//@   ghost var jOf total[string]int = havoc
+//@   loop 1 end wpos := len(instances) > len(prevI) ? store(wpos, info.InstanceID, iterations - 1) : wpos
+//@   loop 1 end idAt := len(instances) > len(prevI) ? store(idAt, len(instances) - 1, info.InstanceID) : idAt
+//@   loop 1 end jOf := len(instances) > len(prevI) ? store(jOf, info.InstanceID, len(instances) - 1) : jOf
+//@   loop 1 invariant pos: start == searchToken(r.ringTokens, key) && 0 <= start && start < len(r.ringTokens) && (iterations < len(r.ringTokens) ==> (i == len(r.ringTokens) ? 0 : i) == walkIdx(start, iterations, len(r.ringTokens)))
+//@   at before@ring.stringSet.contains: assert wrapped: 0 <= i && i < len(r.ringTokens) && i == walkIdx(start, iterations - 1, len(r.ringTokens)) && info.InstanceID == tokOwner(r, i)
+//@   loop 1 invariant walked: walkPlain(r, instanceFilter) ==> (forall k int :: 0 <= k && k < iterations ==> ssHas(distinctHosts, tokOwner(r, walkIdx(start, k, len(r.ringTokens)))))
+//@   loop 1 invariant members: walkPlain(r, instanceFilter) ==> (forall id string :: ssHas(distinctHosts, id) ==> 0 <= wpos[id] && wpos[id] < iterations && tokOwner(r, walkIdx(start, wpos[id], len(r.ringTokens))) == id && 0 <= jOf[id] && jOf[id] < len(instances) && idAt[jOf[id]] == id)
+//@   loop 1 invariant returned: walkPlain(r, instanceFilter) ==> (forall j int :: 0 <= j && j < len(instances) ==> ssHas(distinctHosts, idAt[j]) && jOf[idAt[j]] == j && instances[j] == get(r.ringDesc.Ingesters, idAt[j]))
+//@   at exit: assert every_walked_owner_returned: walkPlain(r, instanceFilter) && r1 == nil ==> (forall k int :: 0 <= k && k < iterations ==> 0 <= jOf[tokOwner(r, walkIdx(start, k, len(r.ringTokens)))] && jOf[tokOwner(r, walkIdx(start, k, len(r.ringTokens)))] < len(r0) && r0[jOf[tokOwner(r, walkIdx(start, k, len(r.ringTokens)))]] == get(r.ringDesc.Ingesters, tokOwner(r, walkIdx(start, k, len(r.ringTokens)))))
+//@   at exit: assert every_returned_is_walked: walkPlain(r, instanceFilter) && r1 == nil ==> (forall j int :: 0 <= j && j < len(r0) ==> 0 <= wpos[idAt[j]] && wpos[idAt[j]] < iterations && r0[j] == get(r.ringDesc.Ingesters, tokOwner(r, walkIdx(start, wpos[idAt[j]], len(r.ringTokens)))))
 //@   at exit: assert accounting: instanceFilter == nil && r1 == nil ==> replicaSetSize == replicationFactor + extCnt(op, r0, len(r0))
 //@   at exit: assert complete: instanceFilter == nil && r1 == nil && !r.cfg.ZoneAwarenessEnabled ==> len(r0) >= min(maxInstances, replicaSetSize) || iterations >= len(r.ringTokens)
 //@   ensures  consistent: r1 == nil
